@@ -96,6 +96,13 @@ def showErr : Err → String
   | .emptyFunderCache => "err:Custom1004"
   | .emptyRecipientCache => "err:Custom1005"
   | .insufficientFunds => "err:InsufficientFunds"
+  | .expectedSigner => "err:Custom1001"
+  | .addressMismatch => "err:Custom1002"
+  | .illegalOwner => "err:IllegalOwner"
+  | .incorrectProgramId => "err:IncorrectProgramId"
+  | .notEnoughAccounts => "err:Custom9004"
+  | .createAttempted => "err:CreateAttempted"
+  | .panicked => "panic"
 
 def showUnit : Except Err Unit → String
   | .ok () => "ok"
